@@ -134,6 +134,9 @@ inductive PeerEv where
   | reset
   /-- nothing arrives until the read deadline: a `net.Error` with `Timeout()` -/
   | silence
+  /-- a part of a frame (some header bytes, or the header and some of the body) and then nothing until the read
+  deadline: the read inside `receiveRawProd` returns the same `net.Error` with `Timeout()`, whatever was read before -/
+  | silenceInside
   deriving DecidableEq, Repr
 
 def PeerEv.recv : PeerEv → Recv
@@ -144,6 +147,7 @@ def PeerEv.recv : PeerEv → Recv
   | .finInside => .err (handleError { eofText := true })
   | .reset => .err (handleError { netErr := true })
   | .silence => .err (handleError { netErr := true, timeout := true })
+  | .silenceInside => .err (handleError { netErr := true, timeout := true })
 
 /-! ### the listener's accept loop and set-ups that stall (`network/tcp.go:395-440`, `router.go:215-258`)
 The loop takes a connection from the operating system and hands it to a routine of its own
